@@ -23,20 +23,34 @@ import (
 
 // Op is one step of the read-seeker history.
 type Op struct {
-	Op     string `json:"op"`            // seek | read | fail
-	Off    int64  `json:"off,omitempty"` // seek: offset as passed; with Abs: the absolute target (offset = target - base(whence))
-	Whence int    `json:"wh,omitempty"`  // seek: io.SeekStart/Current/End (other values: invalid whence)
-	Abs    bool   `json:"abs,omitempty"` // seek: Off is the absolute target position
-	Len    int    `json:"len,omitempty"` // read: len(p)
-	K      int    `json:"k,omitempty"`   // fail: the K-th next GetChunk of the store fails
+	Op     string `json:"op"`             // seek | read | fail | damage | heal
+	Off    int64  `json:"off,omitempty"`  // seek: offset as passed; with Abs: the absolute target (offset = target - base(whence))
+	Whence int    `json:"wh,omitempty"`   // seek: io.SeekStart/Current/End (other values: invalid whence)
+	Abs    bool   `json:"abs,omitempty"`  // seek: Off is the absolute target position
+	Len    int    `json:"len,omitempty"`  // read: len(p)
+	K      int    `json:"k,omitempty"`    // fail: the K-th next GetChunk of the store fails
+	V      int    `json:"v,omitempty"`    // damage/heal: index entry whose ID is damaged / restored in the store
+	Kind   string `json:"kind,omitempty"` // damage: short | long | one | empty (always a different LENGTH than the index entry)
 }
 
-// FuseRead is one read request on the FUSE file node.
+// FuseRead is one read request on the FUSE file node, or (Op damage/heal) a change of the store
+// that acts as a barrier: all requests listed before it have returned, none listed after it has started.
 type FuseRead struct {
-	G    int   `json:"g"` // goroutine that issues it (requests of one goroutine are issued in list order)
-	H    int   `json:"h"` // handle
-	Size int   `json:"size"`
-	Off  int64 `json:"off"`
+	G    int    `json:"g"` // goroutine that issues it (requests of one goroutine are issued in list order)
+	H    int    `json:"h"` // handle
+	Size int    `json:"size"`
+	Off  int64  `json:"off"`
+	Op   string `json:"op,omitempty"`   // "" = read | damage | heal
+	V    int    `json:"v,omitempty"`    // damage/heal: index entry
+	Kind string `json:"kind,omitempty"` // damage: short | long | one | empty
+}
+
+// Twin puts a second entry with the ID of entry Of, but a different size, into the index at
+// position At: an index no blob can satisfy. Every read of that entry's range has to fail.
+type Twin struct {
+	At   int `json:"at"`
+	Of   int `json:"of"`
+	Size int `json:"size"`
 }
 
 // CatOp is one `desync cat` invocation (thorough tier only).
@@ -64,6 +78,9 @@ type Case struct {
 	// 2 a github.com/pkg/errors wrap of io.EOF (what StoreRouter/S3/SFTP stores produce),
 	// 3 io.ErrUnexpectedEOF, 4 desync.ChunkMissing, 5 desync.ChunkInvalid
 	FaultErr int `json:"fault_err,omitempty"`
+
+	Verify bool  `json:"verify,omitempty"` // the store verifies chunks (damaged chunk = ChunkInvalid); default: unverified, damaged data is handed out
+	Twin   *Twin `json:"twin,omitempty"`
 }
 
 // ---------------------------------------------------------------- blob construction
@@ -73,6 +90,7 @@ type layout struct {
 	spans  []ref.Span
 	sizes  gen.Sizes
 	null   []bool // chunk i is the null chunk (all zero, exactly sizes.Max bytes)
+	bad    []bool // entry i claims a size that differs from the chunk stored under its ID (Twin): unreadable
 	ids    [][32]byte
 	length int64
 }
@@ -134,7 +152,100 @@ func build(c Case) layout {
 			l.null[i] = z
 		}
 	}
+	l.bad = make([]bool, len(l.spans))
+	if c.Twin != nil && len(l.spans) > 0 {
+		n := len(l.spans)
+		of, at, size := min(max(c.Twin.Of, 0), n-1), min(max(c.Twin.At, 0), n), uint64(max(c.Twin.Size, 1))
+		size = min(size, l.sizes.Max)
+		if size == l.spans[of].Len {
+			if size > 1 {
+				size--
+			} else if size < l.sizes.Max {
+				size++
+			} else {
+				size = 0
+			}
+		}
+		if size > 0 {
+			pos := uint64(l.length)
+			if at < n {
+				pos = l.spans[at].Start
+			}
+			filler := make([]byte, size) // no content is right for this range
+			for i := range filler {
+				filler[i] = 0x5A
+			}
+			l.blob = append(l.blob[:pos:pos], append(filler, l.blob[pos:]...)...)
+			l.spans = append(l.spans[:at:at], append([]ref.Span{{Start: pos, Len: size}}, l.spans[at:]...)...)
+			for i := at + 1; i < len(l.spans); i++ {
+				l.spans[i].Start += size
+			}
+			id := l.ids[of]
+			l.ids = append(l.ids[:at:at], append([][32]byte{id}, l.ids[at:]...)...)
+			l.null = append(l.null[:at:at], append([]bool{false}, l.null[at:]...)...)
+			l.bad = append(l.bad[:at:at], append([]bool{true}, l.bad[at:]...)...)
+			l.length = int64(len(l.blob))
+		}
+	}
 	return l
+}
+
+// readable returns how many of the n bytes from position p lie before the first unreadable
+// (Twin) entry.
+func (l *layout) readable(p, n int64) int64 {
+	if n <= 0 || p >= l.length {
+		return max(n, 0)
+	}
+	for c := l.chunkAt(p); c < len(l.spans) && int64(l.spans[c].Start) < p+n; c++ {
+		if l.bad[c] {
+			return max(int64(l.spans[c].Start)-p, 0)
+		}
+	}
+	return n
+}
+
+// badID reports whether a mis-sized (Twin) entry carries this ID.
+func (l *layout) badID(id [32]byte) bool {
+	for i, b := range l.bad {
+		if b && l.ids[i] == id {
+			return true
+		}
+	}
+	return false
+}
+
+// entries calls f for every index entry that overlaps [p, p+n).
+func (l *layout) entries(p, n int64, f func(i int)) {
+	if n <= 0 || p >= l.length || p < 0 {
+		return
+	}
+	for c := l.chunkAt(p); c < len(l.spans) && int64(l.spans[c].Start) < p+n; c++ {
+		f(c)
+	}
+}
+
+// damagedData is what Damage puts into the store under the chunk's ID: another length, and no
+// byte equal to the one the blob has at the same chunk offset.
+func damagedData(real []byte, kind string) []byte {
+	var n int
+	switch kind {
+	case "long":
+		n = len(real) + 1 + len(real)/3
+	case "one":
+		n = 1
+	case "empty":
+		n = 0
+	default: // short
+		n = len(real) * 7 / 10
+	}
+	if n == len(real) {
+		n = len(real) + 1
+	}
+	out := make([]byte, n)
+	for i := range out {
+		out[i] = ^real[i%len(real)]
+	}
+	return out
 }
 
 // chunkAt returns the index of the chunk holding byte position p (0 <= p < length).
@@ -269,6 +380,104 @@ func genOp(t *rapid.T, l *layout) Op {
 	}
 }
 
+var damageKinds = []string{"short", "short", "long", "one", "empty"}
+
+// pickVictim draws an index entry to damage, preferring one that is really fetched from the
+// store (the null chunk never is).
+func pickVictim(t *rapid.T, l *layout, label string) int {
+	v := 0
+	for try := 0; try < 3; try++ {
+		v = rapid.IntRange(0, len(l.spans)-1).Draw(t, label)
+		if !l.null[v] && !l.bad[v] {
+			break
+		}
+	}
+	return v
+}
+
+// genOpBlock draws one step of a history, or a whole scenario: damage entry v (wrong length in an
+// unverified store), read inside v (refused), read again inside v at the same / the following /
+// another offset, heal, read again.
+func genOpBlock(t *rapid.T, l *layout) []Op {
+	if len(l.spans) == 0 {
+		return []Op{genOp(t, l)}
+	}
+	switch rapid.IntRange(0, 23).Draw(t, "blk") {
+	case 0:
+		return []Op{{Op: "damage", V: pickVictim(t, l, "v"), Kind: rapid.SampledFrom(damageKinds).Draw(t, "dk")}}
+	case 1:
+		return []Op{{Op: "heal", V: rapid.IntRange(0, len(l.spans)-1).Draw(t, "v")}}
+	case 2, 3:
+		v := pickVictim(t, l, "v")
+		s := l.spans[v]
+		in := func(label string) int64 {
+			return int64(s.Start) + int64(rapid.IntRange(0, int(s.Len)-1).Draw(t, label))
+		}
+		small := func(label string) int { return rapid.SampledFrom([]int{1, 1, 2, 3}).Draw(t, label) }
+		p := in("p")
+		n1 := rapid.SampledFrom([]int{1, 2, int(s.Len), int(l.sizes.Max), 3 * int(l.sizes.Max)}).Draw(t, "n1")
+		ops := []Op{{Op: "damage", V: v, Kind: rapid.SampledFrom(damageKinds).Draw(t, "dk")}}
+		if rapid.IntRange(0, 3).Draw(t, "frombefore") == 0 && s.Start > 0 { // run into v from the entry before it
+			ops = append(ops, Op{Op: "seek", Off: int64(s.Start) - 1, Abs: true}, Op{Op: "read", Len: 1 + small("nb")})
+		} else {
+			ops = append(ops, Op{Op: "seek", Off: p, Whence: rapid.IntRange(0, 2).Draw(t, "whence"), Abs: true}, Op{Op: "read", Len: n1})
+		}
+		ops = append(ops, Op{Op: "read", Len: small("n2")}) // same position: the refused read consumed nothing of v
+		if rapid.Bool().Draw(t, "again") {
+			ops = append(ops, Op{Op: "seek", Off: in("p2"), Whence: rapid.IntRange(0, 2).Draw(t, "whence2"), Abs: true}, Op{Op: "read", Len: small("n3")})
+		}
+		ops = append(ops, Op{Op: "heal", V: v}, Op{Op: "seek", Off: p, Abs: true}, Op{Op: "read", Len: n1})
+		return ops
+	}
+	return []Op{genOp(t, l)}
+}
+
+func genFuseRead(t *rapid.T, c *Case, l *layout) FuseRead {
+	off := genTarget(t, l, "fo")
+	if off < 0 {
+		off = 0
+	}
+	size := genReadLen(t, l, "fs")
+	if rapid.IntRange(0, 7).Draw(t, "page") == 0 {
+		size = rapid.SampledFrom([]int{4096, 131072}).Draw(t, "pagesize")
+	}
+	return FuseRead{G: rapid.IntRange(0, c.Goroutines-1).Draw(t, "g"), H: rapid.IntRange(0, c.Handles-1).Draw(t, "h"), Size: size, Off: off}
+}
+
+// genFuseBlock: one request, a damage / heal barrier, or the re-read scenario on one handle.
+func genFuseBlock(t *rapid.T, c *Case, l *layout) []FuseRead {
+	if len(l.spans) == 0 {
+		return []FuseRead{genFuseRead(t, c, l)}
+	}
+	switch rapid.IntRange(0, 23).Draw(t, "fblk") {
+	case 0:
+		return []FuseRead{{Op: "damage", V: pickVictim(t, l, "v"), Kind: rapid.SampledFrom(damageKinds).Draw(t, "dk")}}
+	case 1:
+		return []FuseRead{{Op: "heal", V: rapid.IntRange(0, len(l.spans)-1).Draw(t, "v")}}
+	case 2, 3:
+		v := pickVictim(t, l, "v")
+		s := l.spans[v]
+		in := func(label string) int64 {
+			return int64(s.Start) + int64(rapid.IntRange(0, int(s.Len)-1).Draw(t, label))
+		}
+		g, h := rapid.IntRange(0, c.Goroutines-1).Draw(t, "g"), rapid.IntRange(0, c.Handles-1).Draw(t, "h")
+		p := in("p")
+		n1 := rapid.SampledFrom([]int{1, 2, int(s.Len), int(l.sizes.Max), 4096}).Draw(t, "n1")
+		rd := func(off int64, size int) FuseRead { return FuseRead{G: g, H: h, Off: off, Size: size} }
+		out := []FuseRead{{Op: "damage", V: v, Kind: rapid.SampledFrom(damageKinds).Draw(t, "dk")}, rd(p, n1)}
+		if rapid.Bool().Draw(t, "same") {
+			out = append(out, rd(p, n1)) // the request repeated as it was
+		}
+		out = append(out, rd(p, rapid.SampledFrom([]int{1, 1, 2}).Draw(t, "n2")), rd(in("p2"), rapid.SampledFrom([]int{1, 2, 3}).Draw(t, "n3")))
+		if rapid.Bool().Draw(t, "others") { // somebody else on the same handle meanwhile
+			out = append(out, genFuseRead(t, c, l))
+		}
+		out = append(out, FuseRead{Op: "heal", V: v}, rd(p, n1))
+		return out
+	}
+	return []FuseRead{genFuseRead(t, c, l)}
+}
+
 func genCase(t *rapid.T) Case {
 	var c Case
 	// (rapid favours the ends of a range: the empty blob, a suspected defect, sits in the middle)
@@ -330,26 +539,46 @@ func genCase(t *rapid.T) Case {
 			c.Pieces = gen.Pieces(t, maxLen, int(c.Sizes.Min), max)
 		}
 	}
+	if n := len(build(c).spans); n > 0 && rapid.IntRange(0, 9).Draw(t, "twin?") == 0 {
+		// an entry that repeats another entry's ID with another size. A larger size is only put at the
+		// end of the index (elsewhere the unrepaired reader spins for ever, which costs a watchdog
+		// period and a core per case).
+		l0 := build(c)
+		of := rapid.IntRange(0, n-1).Draw(t, "twinof")
+		at := of + 1
+		switch rapid.IntRange(0, 3).Draw(t, "twinat") {
+		case 0:
+			at = of
+		case 1:
+			at = rapid.IntRange(0, n).Draw(t, "twinpos")
+		}
+		real, mx := int(l0.spans[of].Len), int(l0.sizes.Max)
+		size := 0
+		if at == n && real < mx && (real == 1 || rapid.Bool().Draw(t, "twinbig")) {
+			size = rapid.IntRange(real+1, mx).Draw(t, "twinsize")
+		} else if real > 1 {
+			size = rapid.IntRange(1, real-1).Draw(t, "twinsize")
+		}
+		if size > 0 {
+			c.Twin = &Twin{At: at, Of: of, Size: size}
+		}
+	}
+	c.Verify = rapid.IntRange(0, 4).Draw(t, "verify") == 0
 	l := build(c)
 
 	// rapid's slice lengths lean towards the minimum: draw the minimum so that long histories are common
 	minOps := rapid.SampledFrom([]int{1, 4, 10, 20, 30}).Draw(t, "minops")
-	c.Ops = rapid.SliceOfN(rapid.Custom(func(t *rapid.T) Op { return genOp(t, &l) }), minOps, hx.Pick(40, 80)).Draw(t, "ops")
+	for _, b := range rapid.SliceOfN(rapid.Custom(func(t *rapid.T) []Op { return genOpBlock(t, &l) }), minOps, hx.Pick(40, 80)).Draw(t, "ops") {
+		c.Ops = append(c.Ops, b...)
+	}
 
 	c.FaultErr = rapid.SampledFrom([]int{0, 0, 1, 2, 3, 4, 5}).Draw(t, "faulterr")
 	c.Handles = rapid.IntRange(1, 3).Draw(t, "handles")
 	c.Goroutines = rapid.IntRange(1, 4).Draw(t, "goroutines")
-	c.Fuse = rapid.SliceOfN(rapid.Custom(func(t *rapid.T) FuseRead {
-		off := genTarget(t, &l, "fo")
-		if off < 0 {
-			off = 0
-		}
-		size := genReadLen(t, &l, "fs")
-		if rapid.IntRange(0, 7).Draw(t, "page") == 0 {
-			size = rapid.SampledFrom([]int{4096, 131072}).Draw(t, "pagesize")
-		}
-		return FuseRead{G: rapid.IntRange(0, c.Goroutines-1).Draw(t, "g"), H: rapid.IntRange(0, c.Handles-1).Draw(t, "h"), Size: size, Off: off}
-	}), rapid.SampledFrom([]int{0, 2, 8, 16}).Draw(t, "minfuse"), hx.Pick(24, 60)).Draw(t, "fuse")
+	for _, b := range rapid.SliceOfN(rapid.Custom(func(t *rapid.T) []FuseRead { return genFuseBlock(t, &c, &l) }),
+		rapid.SampledFrom([]int{0, 2, 8, 16}).Draw(t, "minfuse"), hx.Pick(24, 60)).Draw(t, "fuse") {
+		c.Fuse = append(c.Fuse, b...)
+	}
 	if rapid.IntRange(0, 2).Draw(t, "fusefaults") == 0 {
 		c.FuseFail = rapid.SliceOfNDistinct(rapid.IntRange(1, 10), 1, 3, rapid.ID[int]).Draw(t, "fusefail")
 	}
@@ -394,8 +623,10 @@ var spec = &hx.Spec[Case]{
 	Rule: "cases = (blob: empty / single chunk / chunk lists with null-chunk runs, short zero chunks, 1-byte chunks and repeated IDs / arbitrary 1..max tilings / content-defined chunking of pieces with zero runs; " +
 		"history of Seek(any whence, targets 0, ±1, chunk boundaries ±1, Length, Length±1, negative, far beyond), Read(0..3·max), FailNext(k) on desync.NewIndexReadSeeker over a fault-injecting store; " +
 		"FUSE section: NewIndexMountFS attached in-process (fs.NewNodeFS, no kernel mount), h handles, reads (off,size) issued from g goroutines, GetChunk faults at generated call numbers; " +
+		"store damage: Damage(entry v, kind) puts data of another LENGTH under v's ID into the (by default unverified) store, Heal(v) restores it, in the reader history and as barriers between FUSE request groups, with scenarios read-in-v refused -> read again in v -> heal -> read; " +
+		"one case in ten has an index entry that repeats another entry's ID with a different size (unreadable range); " +
 		"thorough: `desync cat -o -l` with an optionally removed chunk file); " +
-		"non-trivial = the history has a correct read spanning >= 2 chunks after a backwards seek, or a read crossing a null-chunk boundary, or a successful read after a delivered store fault; distinct by case content hash",
+		"non-trivial = the history has a correct read spanning >= 2 chunks after a backwards seek, or a read crossing a null-chunk boundary, or a successful read after a delivered store fault, or a read of an entry the reader/handle refused before (still damaged or healed); distinct by case content hash",
 	Assumptions: []string{
 		"oracle: the blob bytes and a cursor; chunk IDs computed with crypto/sha512 directly; content-defined cuts by the reference chunker",
 		"the FUSE file is driven in-process: even handles through the node API (Open/Read/Getattr of the inode's operations), odd handles through go-fuse's rawBridge (LOOKUP/OPEN/READ/RELEASE) returned by fs.NewNodeFS; the kernel FUSE path is not exercised",
@@ -403,11 +634,15 @@ var spec = &hx.Spec[Case]{
 		"a Seek beyond the end may either be refused (position unchanged) or accepted (later reads give 0 bytes and io.EOF)",
 		"store faults are attributed to FUSE reads by the goroutine that called GetChunk (the node is called synchronously)",
 		"cat with -l reaching beyond the end: stdout must be the exact remaining bytes, either exit status accepted",
+		"damage always changes the chunk's length (same-length damage in an unverified store is undetectable); a damaged chunk that the reader still has cached from before may be served; what counts is whether the store handed out damaged data during the call",
+		"an index entry whose size differs from the chunk stored under its ID has no right content: every read of its range must fail (after a correct prefix); a larger-than-real such entry is generated only as the last entry",
 	},
 	Required: []string{
 		"blob:empty", "blob:single-chunk", "blob:null-run", "blob:repeated-id", "blob:one-byte-chunk", "blob:tiled", "blob:content-defined",
 		"seek:refused", "seek:backward", "seek:to-end", "read:spans-chunks-after-backseek", "read:crosses-null", "read:at-eof", "read:to-eof",
 		"fault:delivered", "read:after-fault",
+		"damage:wrong-length", "damage:delivered", "reread-after-refusal", "reread-after-heal", "fuse:damage-delivered", "fuse:reread-after-refusal", "fuse:reread-after-heal",
+		"index:same-id-other-size", "read:mis-sized-entry",
 		"fuse:concurrent", "fuse:shared-handle", "fuse:via-bridge", "fuse:fault-delivered", "fuse:straddles-eof", "fuse:at-eof",
 	},
 	Gen:      genCase,
@@ -447,40 +682,123 @@ func enumBlobs() []Case {
 	return hx.Pick(append(all[:4:4], all[5]), all) // the empty layout last: it is a suspected defect
 }
 
-// TestEnum: for the small layouts, every (start position, seek target incl. -1 and Length+1,
-// whence, read length) combination, and every FUSE (offset, size) request.
+// enumHistories: every (start position, seek target incl. -1 and Length+1, whence, read length)
+// combination and every FUSE (offset, size) request on one layout.
+func enumHistories(t *testing.T, base Case) (n int, ok bool) {
+	L := build(base).length
+	for p0 := int64(0); p0 <= L; p0++ {
+		for p1 := int64(-1); p1 <= L+1; p1++ {
+			c := base
+			c.Ops = nil
+			for rl := 0; rl <= int(L)+1; rl++ {
+				// from p0 (after touching the chunk there) go to p1 and read rl bytes; then come back
+				c.Ops = append(c.Ops,
+					Op{Op: "seek", Off: p0, Whence: 0, Abs: true}, Op{Op: "read", Len: 1},
+					Op{Op: "seek", Off: p1, Whence: rl % 3, Abs: true}, Op{Op: "read", Len: rl})
+			}
+			c.Fuse = nil
+			for sz := 0; sz <= int(L)+1; sz++ {
+				if p1 >= 0 {
+					c.Fuse = append(c.Fuse, FuseRead{Off: p0, Size: 1}, FuseRead{Off: p1, Size: sz})
+				}
+			}
+			n++
+			if !hx.Case(t, spec, c) {
+				return n, false
+			}
+		}
+	}
+	return n, true
+}
+
+// enumDamage: for every fetched entry v, damage kind and pair of positions (p, p2) inside v:
+// damage, read at p (refused), read again, read at p2, run into v from the byte before it, heal,
+// read at p - for the reader and for one FUSE handle; once more with a verifying store.
+func enumDamage(t *testing.T, base Case) (n int, ok bool) {
+	l := build(base)
+	for v, s := range l.spans {
+		if l.null[v] || l.bad[v] {
+			continue
+		}
+		for ki, kind := range []string{"short", "long", "one", "empty"} {
+			for p := int64(s.Start); p < int64(s.Start+s.Len); p++ {
+				for p2 := int64(s.Start); p2 < int64(s.Start+s.Len); p2++ {
+					c := base
+					c.Verify = ki == 0 && p2 == p
+					big := int(l.length) + 1
+					c.Ops = []Op{{Op: "damage", V: v, Kind: kind},
+						{Op: "seek", Off: p, Abs: true}, {Op: "read", Len: 1 + int(p2-int64(s.Start))}, {Op: "read", Len: 1}, {Op: "read", Len: big},
+						{Op: "seek", Off: p2, Abs: true, Whence: 1}, {Op: "read", Len: 1}, {Op: "read", Len: 2},
+						{Op: "seek", Off: max(int64(s.Start)-1, 0), Abs: true, Whence: 2}, {Op: "read", Len: 3}, {Op: "read", Len: 1},
+						{Op: "heal", V: v}, {Op: "read", Len: 1}, {Op: "seek", Off: p, Abs: true}, {Op: "read", Len: big}}
+					c.Fuse = []FuseRead{{Op: "damage", V: v, Kind: kind},
+						{Off: p, Size: 1 + int(p2-int64(s.Start))}, {Off: p, Size: 1 + int(p2-int64(s.Start))}, {Off: p2, Size: 1}, {Off: p2 + 1, Size: 1},
+						{Off: max(int64(s.Start)-1, 0), Size: big}, {Off: p2, Size: 2},
+						{Op: "heal", V: v}, {Off: p2, Size: 1}, {Off: p, Size: big}}
+					n++
+					if !hx.Case(t, spec, c) {
+						return n, false
+					}
+				}
+			}
+		}
+	}
+	return n, true
+}
+
+// TestEnum: the exhaustive parts (shard 0).
 func TestEnum(t *testing.T) {
 	if hx.Shard() != 0 {
 		t.Skip()
 	}
 	n := 0
 	for _, base := range enumBlobs() {
-		L := int64(len(gen.Expand(base.Pieces)))
-		for p0 := int64(0); p0 <= L; p0++ {
-			for p1 := int64(-1); p1 <= L+1; p1++ {
-				c := base
-				c.Ops = nil
-				for rl := 0; rl <= int(L)+1; rl++ {
-					// from p0 (after touching the chunk there) go to p1 and read rl bytes; then come back
-					c.Ops = append(c.Ops,
-						Op{Op: "seek", Off: p0, Whence: 0, Abs: true}, Op{Op: "read", Len: 1},
-						Op{Op: "seek", Off: p1, Whence: rl % 3, Abs: true}, Op{Op: "read", Len: rl})
-				}
-				c.Fuse = nil
-				for sz := 0; sz <= int(L)+1; sz++ {
-					if p1 >= 0 {
-						c.Fuse = append(c.Fuse, FuseRead{Off: p0, Size: 1}, FuseRead{Off: p1, Size: sz})
-					}
-				}
-				n++
-				if !hx.Case(t, spec, c) {
-					return
-				}
-			}
+		k, ok := enumHistories(t, base)
+		n += k
+		if !ok {
+			return
 		}
 	}
 	hx.Note("enum_cases", n)
 	hx.Exhaustive(fmt.Sprintf("%d small layouts: every (position, seek target in -1..Length+1, whence, read length 0..Length+1) and every FUSE (offset, size)", len(enumBlobs())))
+
+	n = 0
+	for _, base := range enumBlobs() {
+		k, ok := enumDamage(t, base)
+		n += k
+		if !ok {
+			return
+		}
+	}
+	hx.Note("enum_damage_cases", n)
+	hx.Exhaustive("small layouts: every (fetched entry, wrong-length kind, refused position, re-read position) with heal, reader and FUSE handle")
+
+	// an entry that repeats an ID with another size, next to its original or anywhere (thorough)
+	n = 0
+	for _, base := range enumBlobs()[:1] {
+		l := build(base)
+		for of := range l.spans {
+			for at := 0; at <= len(l.spans); at++ {
+				if !hx.Thorough() && at != of && at != of+1 {
+					continue
+				}
+				for size := 1; size <= int(l.sizes.Max); size++ {
+					if size == int(l.spans[of].Len) || (size > int(l.spans[of].Len) && at != len(l.spans)) {
+						continue // a larger twin in the middle: see genCase
+					}
+					c := base
+					c.Twin = &Twin{At: at, Of: of, Size: size}
+					k, ok := enumHistories(t, c)
+					n += k
+					if !ok {
+						return
+					}
+				}
+			}
+		}
+	}
+	hx.Note("enum_twin_cases", n)
+	hx.Exhaustive("one small layout: every same-ID entry with another size (adjacent to its original; larger only at the end) x every history of the first enumeration")
 }
 
 func TestProp(t *testing.T) { hx.Prop(t, spec) }
